@@ -36,7 +36,16 @@ COLLIDING = ["a", "b", "c", "ab", "bc", "abc", "1", "2", "12", "22", "a1", "1a"]
 
 # ------------------------------------------------------------------------------------------- JSON route
 def to_json_dict(r, rng):
-    """the JSON form of a recipe, written by the harness from the documented format"""
+    """the JSON form of a recipe, written by the harness from the documented format (the keys of an object come in any order)"""
+    d = _to_json_dict(r, rng)
+    if isinstance(d, dict) and rng.random() < 0.5:
+        ks = list(d)
+        rng.shuffle(ks)
+        d = {k_: d[k_] for k_ in ks}
+    return d
+
+
+def _to_json_dict(r, rng):
     k = r["k"]
     if k in ("var", "str"):
         f = rng.random()
